@@ -28,10 +28,13 @@ CLAIMED = {
         text=("Theorems (Coq): read_memory returns exactly the requested bytes iff all are mapped, at any alignment/length (C15_read_exact); write_bytes "
               "changes exactly [a,a+n) for any alignment and length and fails with EIO when a target byte is unmapped (C15_write_exact / _unmapped_fails), by "
               "induction over the word loops; register update/read and user_regs round trips over tables regenerated from the source. Tie: real reads and "
-              "writes on a debuggee with holes, PROT_NONE and read-only pages, decided in Coq against /proc/<pid>/mem snapshots; registers against PTRACE_GETREGS."),
+              "writes on a debuggee with holes, PROT_NONE and read-only pages, decided in Coq against /proc/<pid>/mem snapshots; registers against PTRACE_GETREGS. "
+              "Disassembly: the masking loops of disasm_function and read_original_code hand the program's original bytes to the decoder for any set of "
+              "breakpoints and never index outside the buffer (C15_disasm_original / _no_panic, C15_dap_disasm_original), over the filter / guard regenerated "
+              "from the source; tie: Debugger::disasm() and DAP disassemble with breakpoints in and directly behind functions against the ELF file's bytes."),
         ref="DESIGN.md section 5 C15",
-        technique="Coq proof (induction over the peek/poke word loops) + translator (register tables; arithmetic skeletons of the write_bytes and read_memory_by_pid loops, proved equal to the model for every input in Ties/MemTie.v) + end-to-end differential correspondence evaluated by vm_compute",
-        note=TB + " ptrace word semantics (8 bytes, EIO unless all mapped) and page-granular mappings are assumed; disassembly masking and DAP setVariable are not yet in the model."),
+        technique="Coq proof (induction over the peek/poke word loops) + translator (register tables; arithmetic skeletons of the write_bytes and read_memory_by_pid loops, proved equal to the model for every input in Ties/MemTie.v; the breakpoint-masking filter of disasm_function, the guard of read_original_code and the DAP read sites) + end-to-end differential correspondence evaluated by vm_compute",
+        note=TB + " ptrace word semantics (8 bytes, EIO unless all mapped) and page-granular mappings are assumed; capstone (the decoder) is outside the model: the theorems are about the bytes it is given. DAP setVariable / setExpression are not in the model yet."),
     "C05": dict(
         text=("Theorems (Coq, any stack depth below the cap, any CFI supplied as functions): the unwinder's loop returns the complete chain of return "
               "addresses whenever no (return address, CFA) pair repeats (C05_unwind_complete, with CFAs strictly increasing this covers every recursion); "
